@@ -12,8 +12,10 @@ cp $wt/_seed/demo.py $dst/demo.py
 cp $wt/_seed/meta.json $dst/agent_meta.json 2>/dev/null
 # fresh scratch worktree at the same path the demo expects? demos hardcode $wt, so evaluate in place:
 cd $wt
-git stash -q -- proxy 2>/dev/null; clean_rc=$( /venv/bin/python _seed/demo.py >/tmp/seed_demo_clean.log 2>&1; echo $? )
-git stash pop -q 2>/dev/null; mut_rc=$( /venv/bin/python _seed/demo.py >/tmp/seed_demo_mut.log 2>&1; echo $? )
+# NB: `git stash` is shared between worktrees (sub-agents collided on it) -- use apply -R / apply instead
+git checkout -q -- proxy; git apply _seed/patch.diff || echo "PATCH DOES NOT APPLY IN WORKTREE"
+git apply -R _seed/patch.diff; clean_rc=$( /venv/bin/python _seed/demo.py >/tmp/seed_demo_clean.log 2>&1; echo $? )
+git apply _seed/patch.diff; mut_rc=$( /venv/bin/python _seed/demo.py >/tmp/seed_demo_mut.log 2>&1; echo $? )
 echo "demo: clean rc=$clean_rc  with-change rc=$mut_rc"
 tail -2 /tmp/seed_demo_mut.log
 tests=$( /venv/bin/python -m pytest -q -p no:cacheprovider tests/core tests/http tests/plugin tests/common --timeout=300 --deselect tests/http/proxy/test_http2.py --deselect tests/http/test_client.py 2>&1 | tail -1 )
